@@ -6,6 +6,7 @@ import (
 	"sort"
 	"strings"
 
+	"github.com/diskfs/go-diskfs/disk"
 	"github.com/diskfs/go-diskfs/partition"
 	"github.com/diskfs/go-diskfs/partition/gpt"
 
@@ -152,7 +153,7 @@ func runCrashPair(p *crashPair, st *crashStats, only *crashCase) string {
 		oldView = viewOf(rt)
 	}
 	nt := shapeTable(p.New, p.LSS, p.DiskSize, p.PMBR)
-	if p.Via != "" && oldView != nil {
+	if p.Via != "" && p.Via != "disk" && oldView != nil {
 		if p.Via == "recovered" {
 			base.Poke([]byte("XXXXXXXX"), int64(p.LSS))
 			rec, err := gpt.Read(base, p.LSS, p.LSS)
@@ -180,7 +181,16 @@ func runCrashPair(p *crashPair, st *crashStats, only *crashCase) string {
 	work := base.Clone()
 	work.LogEvents, work.LogData = true, true
 	var werr error
-	if pm := guard(func() { werr = nt.Write(work, p.DiskSize) }); pm != "" {
+	if pm := guard(func() {
+		if p.Via == "disk" {
+			// the public route: Disk.Partition on a disk opened over the device (whatever wraps the device on that route must
+			// pass the syncs through)
+			dk := &disk.Disk{Backend: be(work, false), Size: p.DiskSize, LogicalBlocksize: int64(p.LSS), PhysicalBlocksize: int64(p.LSS), DefaultBlocks: true}
+			werr = dk.Partition(nt)
+			return
+		}
+		werr = nt.Write(work, p.DiskSize)
+	}); pm != "" {
 		return "write panic " + pm
 	}
 	if werr != nil {
@@ -448,6 +458,9 @@ func C09(r *ev.Run) {
 							continue
 						}
 						pairs = append(pairs, crashPair{Old: o, New: n, LSS: lss, DiskSize: dsz, PMBR: pm})
+						if o.Foreign == 0 && (!r.Quick() || (oi+ni)%2 == 0) {
+							pairs = append(pairs, crashPair{Old: o, New: n, LSS: lss, DiskSize: dsz, PMBR: pm, Via: "disk"})
+						}
 						if o.N >= 0 && (!r.Quick() || (oi+ni)%2 == 1) {
 							pairs = append(pairs, crashPair{Old: o, New: n, LSS: lss, DiskSize: dsz, PMBR: pm, Via: "rmw"}, crashPair{Old: o, New: n, LSS: lss, DiskSize: dsz, PMBR: pm, Via: "recovered"})
 						}
@@ -475,7 +488,7 @@ func C09(r *ev.Run) {
 	}
 	sort.Strings(ls)
 	r.Set("write_log_shapes", ls)
-	r.Set("rule", "for every ordered pair (old,new) of table shapes {blank, empty, 1, 4, 4 other geometry/names/types/GUID, 40, 128 partitions, same/different disk GUID; as old table also a disk partitioned by another tool with a 4-slot and a 56-slot entry array directly in front of the first partition} x sector size x disk size x protective MBR x lineage of the written object {built by the caller, read from the disk and modified, the same after the disk had been repaired from its backup copy}: the real Table.Write runs on a logging device; every prefix of its WriteAt/Sync log x every subset (<=12 differing sectors: all 2^n subsets; more: none/all/single/all-but-one/first-k/last-k/even/odd) of the 512-byte sectors of the unsynced writes that change the medium is materialised and read with gpt.Read and partition.Read; distinct_nontrivial = distinct device images among the crash states")
+	r.Set("rule", "for every ordered pair (old,new) of table shapes {blank, empty, 1, 4, 4 other geometry/names/types/GUID, 40, 128 partitions, same/different disk GUID; as old table also a disk partitioned by another tool with a 4-slot and a 56-slot entry array directly in front of the first partition} x sector size x disk size x protective MBR x lineage of the written object {built by the caller and written with Table.Write, built by the caller and written through Disk.Partition, read from the disk and modified, the same after the disk had been repaired from its backup copy}: the real Table.Write runs on a logging device; every prefix of its WriteAt/Sync log x every subset (<=12 differing sectors: all 2^n subsets; more: none/all/single/all-but-one/first-k/last-k/even/odd) of the 512-byte sectors of the unsynced writes that change the medium is materialised and read with gpt.Read and partition.Read; distinct_nontrivial = distinct device images among the crash states")
 	// the enumerated space is the one the rule spells out (all subsets up to the limit, the generating family above it);
 	// how often the family stood in for all subsets is reported next to it
 	r.Set("exhaustive", done == len(pairs))
